@@ -452,6 +452,68 @@ def run_fault(case: dict) -> Outcome:
     return out
 
 
+# ----------------------------------------------------------------------------- many slow sync subscribers at once
+
+
+@st.composite
+def slow_subs_case(draw):
+    """'Whatever subscribers do - be slow, be sync': a burst of messages whose before_actor_run subscriber is a slow sync
+    function, actors sync as well with a short execution timeout.  Results and final state must equal the subscriber-free run."""
+    return {"n": draw(st.sampled_from([60, 80, 8])), "sleep": draw(st.sampled_from([1.0, 1.2])), "seed": draw(st.integers(0, 999)),
+            "signal": draw(st.sampled_from(["before_actor_run", "before_actor_run", "after_actor_run", "before_ack"]))}
+
+
+async def _slow_subs(loop, case, with_subs: bool):
+    import time as _time
+
+    from repid import BasicConverter, Job, Queue, Router, Worker
+
+    reset_globals()
+    env = Env("mem", loop, case["seed"])
+    conn = env.connection("A", None, buckets=False)
+    await conn.connect()
+    ran: list = []
+
+    def work(x: int) -> int:
+        ran.append(x)
+        return x
+
+    if with_subs:
+        def sub() -> None:
+            _time.sleep(case["sleep"])  # a slow sync subscriber (runs in a thread)
+        sub.__name__ = case["signal"]
+        conn.middleware.add_subscriber(sub)
+    router = Router()
+    router.actor(work, name="work", queue="qs", converter=BasicConverter)
+    await Queue("qs", _connection=conn).declare()
+    for i in range(case["n"]):
+        await Job("work", queue="qs", id_=f"s{i}", args={"x": i}, timeout=timedelta(seconds=1), _connection=conn).enqueue()
+    w = Worker(routers=[router], tasks_limit=1000, messages_limit=case["n"], handle_signals=[], _connection=conn)
+    await asyncio.wait_for(w.run(), timeout=300.0)
+    await asyncio.sleep(0.2)
+    return sorted(ran), _state(env)
+
+
+def run_slow_subs(case: dict) -> Outcome:
+    out = Outcome()
+    try:
+        ref = vclock.run(lambda loop: _slow_subs(loop, case, False), max_steps=3_000_000, thread_time=True)
+        got = vclock.run(lambda loop: _slow_subs(loop, case, True), max_steps=3_000_000, thread_time=True)
+    except (vclock.StepLimit, vclock.Deadlock, asyncio.TimeoutError) as e:
+        out.inconclusive = True
+        out.info["watchdog"] = repr(e)
+        return out
+    if ref[0] != got[0]:
+        out.v("subscribers-changed-result", f"{case['n']} concurrent messages, slow sync {case['signal']} subscriber: {len(got[0])} actors ran, "
+              f"{len(ref[0])} without the subscriber", burst=case["n"])
+    elif ref[1] != got[1]:
+        out.v("subscribers-changed-state", f"final broker state differs with a slow sync {case['signal']} subscriber: without {ref[1][:200]}, "
+              f"with {got[1][:200]}", burst=case["n"])
+    out.nontrivial = case["n"] > 32
+    out.cls(f"burst-{case['n']}", "signal-" + case["signal"])
+    return out
+
+
 def _s(b):
     return lambda: mw_case(b)
 
@@ -477,5 +539,6 @@ CHECK = Check(
         SubCheck("redis", _s("redis"), run, quick=15, thorough=800),
         SubCheck("amqp", _s("amqp"), run, quick=15, thorough=800),
         SubCheck("redis-background", fault_case, run_fault, quick=25, thorough=1000),
+        SubCheck("slow-sync-subscribers", slow_subs_case, run_slow_subs, quick=2, thorough=20),
     ],
 )
